@@ -1467,6 +1467,9 @@ impl Evaluator {
         }
 
         destination.set_is_ntt_form(encrypted.is_ntt_form());
+        // the destination may be a used object: every metadata field is written, not only the ones that change
+        destination.set_scale(encrypted.scale());
+        destination.set_correction_factor(encrypted.correction_factor());
         if scheme == SchemeType::CKKS {
             destination.set_scale(encrypted.scale() / parms.coeff_modulus().last().unwrap().value() as f64);
         } else if scheme == SchemeType::BGV {
